@@ -1194,7 +1194,14 @@ def entry(rep, ex: Explorer):
                         # only where the solver reported nothing and nothing is fixed
                         absent = ("not", ("in", ("name", ("gamma+_", ("elem", b, "key"))), ("dict", rv.oid if fn == "c_revision" else o.segs[0][1].oid)))
                         want_g = absent if nFP else ("and", (absent, ("not", ("in", ("elem", b, "key"), FPD))))
-                        okz = okz and g == want_g
+                        def conj(x):
+                            if isinstance(x, tuple) and x and x[0] == "and":
+                                out = set()
+                                for y in x[1]:
+                                    out |= conj(y)
+                                return out
+                            return set() if x == PTRUE else {x}
+                        okz = okz and conj(g) == conj(want_g)  # the same conjuncts, in whatever order they were tested
                     rep.check(okz, "REV.entry", site, f"gamma+ zero in the result ({tag}; fixed+ {'absent' if nFP else 'given'})", "with gamma_plus_zero the returned gamma+ of the unfixed conditionals are 0",
                               extracted=repr([(desc(e[4]), e[5]) for e in zs])[:200], required="gamma+_i = 0", function=site)
                 else:
